@@ -803,7 +803,17 @@ impl KotoVm {
                     return Ok(value);
                 }
                 Err(error) => match self.pop_call_stack_on_error(error.clone(), true) {
-                    Ok((recover_register, ip)) => {
+                    Ok(CatchPoint {
+                        error_register: recover_register,
+                        catch_ip: ip,
+                        sequence_builder_count,
+                        string_builder_count,
+                    }) => {
+                        // Drop any strings or sequences that were under construction when the
+                        // error was thrown.
+                        self.sequence_builders.truncate(sequence_builder_count);
+                        self.string_builders.truncate(string_builder_count);
+
                         let catch_value = match error.error {
                             ErrorKind::KotoError { thrown_value, .. } => thrown_value,
                             _ => KValue::Str(error.to_string().into()),
@@ -1103,7 +1113,15 @@ impl KotoVm {
                 catch_offset,
             } => {
                 let catch_ip = self.ip() + catch_offset as u32;
-                self.frame_mut().catch_stack.push((arg_register, catch_ip));
+                // Remember the builder stack sizes so that they can be restored if an error is
+                // caught while a string or sequence is under construction.
+                let catch_point = CatchPoint {
+                    error_register: arg_register,
+                    catch_ip,
+                    sequence_builder_count: self.sequence_builders.len(),
+                    string_builder_count: self.string_builders.len(),
+                };
+                self.frame_mut().catch_stack.push(catch_point);
             }
             TryEnd => {
                 self.frame_mut().catch_stack.pop();
@@ -3682,13 +3700,13 @@ impl KotoVm {
         &mut self,
         mut error: Error,
         allow_catch: bool,
-    ) -> Result<(u8, u32)> {
+    ) -> Result<CatchPoint> {
         error.extend_trace(self.instruction_frame());
 
         while let Some(frame) = self.call_stack.last() {
             match frame.catch_stack.last() {
-                Some((error_register, catch_ip)) if allow_catch => {
-                    return Ok((*error_register, *catch_ip));
+                Some(catch_point) if allow_catch => {
+                    return Ok(*catch_point);
                 }
                 _ => {
                     if frame.execution_barrier {
@@ -3967,6 +3985,18 @@ impl<'a, const N: usize> From<&'a [KValue; N]> for CallArgs<'a> {
 // The Map is optional to prevent recursive imports (see Vm::run_import).
 type ModuleCache = HashMap<PathBuf, Option<KMap>, BuildHasherDefault<FxHasher>>;
 
+// The information needed to resume execution in a catch block, see TryStart
+#[derive(Clone, Copy)]
+struct CatchPoint {
+    // The register that receives the caught error
+    error_register: u8,
+    // The ip of the catch block
+    catch_ip: u32,
+    // The sizes of the VM's builder stacks when the try block was entered
+    sequence_builder_count: usize,
+    string_builder_count: usize,
+}
+
 // A frame in the VM's call stack
 #[derive(Clone)]
 struct Frame {
@@ -3987,7 +4017,7 @@ struct Frame {
     // When returning to this frame, the register that should receive the return value
     pub return_value_register: Option<u8>,
     // A stack of catch points for handling errors
-    pub catch_stack: Vec<(u8, u32)>, // catch error register, catch ip
+    pub catch_stack: Vec<CatchPoint>,
     // True if the frame should prevent execution from continuing after the frame is exited.
     // e.g.
     //   - a function is being called externally from the VM
